@@ -52,6 +52,7 @@ StorageReflectSession() :
    _subscriptionsEnabled(true),
    _maxSubscriptionMessageItems(DEFAULT_MAX_SUBSCRIPTION_MESSAGE_SIZE),
    _indexingPresent(false),
+   _mostRecentPassMessageTarget(NULL),
    _currentNodeCount(0),
    _maxNodeCount(MUSCLE_NO_LIMIT),
    _maxChildrenPerDataNodeCount(MUSCLE_NO_LIMIT),
@@ -883,10 +884,12 @@ MessageReceivedFromGateway(const MessageRef & msgRef, void * userData)
       {
          NodePathMatcher matcher;
          (void) matcher.PutPathsFromMessage(PR_NAME_KEYS, PR_NAME_FILTERS, msg, DEFAULT_PATH_PREFIX);
+         _mostRecentPassMessageTarget = NULL;
          (void) matcher.DoTraversal((PathMatchCallback)PassMessageCallbackFunc, this, GetGlobalRoot(), true, const_cast<MessageRef *>(&msgRef));
       }
       else if (_parameters.HasName(PR_NAME_KEYS, B_STRING_TYPE))
       {
+         _mostRecentPassMessageTarget = NULL;
          (void) _defaultMessageRoute.DoTraversal((PathMatchCallback)PassMessageCallbackFunc, this, GetGlobalRoot(), true, const_cast<MessageRef *>(&msgRef));
       }
       else DumbReflectSession::MessageReceivedFromGateway(msgRef, userData);
@@ -1042,6 +1045,7 @@ status_t StorageReflectSession :: SendMessageToMatchingSessions(const MessageRef
       NodePathMatcher matcher;
       MRETURN_ON_ERROR(matcher.PutPathString(s, filter));
       void * sendMessageData[] = {const_cast<MessageRef *>(&msgRef), &includeSelf}; // gotta include the includeSelf param too, alas
+      _mostRecentPassMessageTarget = NULL;
       (void) matcher.DoTraversal((PathMatchCallback)SendMessageCallbackFunc, this, GetGlobalRoot(), true, sendMessageData);
       return B_NO_ERROR;
    }
@@ -1263,8 +1267,12 @@ PassMessageCallbackAux(DataNode & node, const MessageRef & msgRef, bool includeS
    TCHECKPOINT;
 
    StorageReflectSession * next = dynamic_cast<StorageReflectSession *>(GetSession(node.GetAncestorNode(NODE_DEPTH_SESSIONNAME, &node)->GetNodeName())());
-   if ((next)&&((next != this)||(includeSelfOkay))) next->MessageReceivedFromSession(*this, msgRef, &node);
-   return NODE_DEPTH_SESSIONNAME; // This causes the traversal to immediately skip to the next session
+   if ((next)&&((next != this)||(includeSelfOkay))&&(next != _mostRecentPassMessageTarget))  // the last test is there because the traversal may call us again for another matching node of the same session
+   {
+      _mostRecentPassMessageTarget = next;
+      next->MessageReceivedFromSession(*this, msgRef, &node);
+   }
+   return NODE_DEPTH_SESSIONNAME; // This causes the traversal to skip ahead towards the next session
 }
 
 int
